@@ -25,7 +25,7 @@ from lib import gz, glist, gbool
 
 THEOREMS = ['C12_built_once', 'C12_served_whole', 'C12_no_interference', 'C12_schedule_independent',
             'C12_steps_bounded', 'C12_no_deadlock', 'C12_all_served',
-            'C12_memo_transparent', 'C12_attrs_transparent', 'C12_sort_transparent', 'C12_errlog_isolated',
+            'C12_memo_transparent', 'C12_attrs_transparent', 'C12_sort_transparent', 'C12_errlog_isolated', 'C12_validator_error_isolated',
             'C12_mutual_exclusion', 'C12_text_is_model_text', 'C12_text_paths',
             'C12_pinned_wsdl_refuted', 'C12_pinned_attrs_refuted', 'C12_pinned_errlog_refuted']
 
@@ -455,7 +455,11 @@ class SchemaProxy(object):
     def validate(self, payload):
         s = self._s
         s.point('acc')
-        r = self._real.validate(payload)
+        try:
+            r = self._real.validate(payload)
+        except Exception:
+            s.record(VALIDATE, -1)      # validate() itself raised (XMLSchemaValidateError)
+            raise
         s.record(VALIDATE, 1 if r else 0)
         return r
 
@@ -471,11 +475,15 @@ class SchemaProxy(object):
         return getattr(self._real, name)
 
 
+XERR = 77
+
 def errid(text):
     """which payload produced this libxml error text (payload i carries an element bad<i>)"""
     import re
     if text == 'None':
         return -1
+    if 'Internal error' in text:    # XMLSchemaValidateError / the SCHEMAV_INTERNAL entry it leaves in the log
+        return XERR
     m = re.search(r'bad(\d+)', text)
     return int(m.group(1)) if m else -2
 
@@ -723,6 +731,11 @@ def req_body(r):
         return soap('<tns:count><tns:b><tns:owner>%s</tns:owner><tns:items>%s</tns:items></tns:b></tns:count>' % (r[1], items))
     if kind == 'tag':
         return soap('<tns:tag><tns:s>%s</tns:s></tns:tag>' % r[1])
+    if kind == 'entity':       # an internal entity reference: stays in the tree, the validator raises
+        return ('<?xml version="1.0" encoding="utf-8"?><!DOCTYPE e [<!ENTITY x "y">]>'
+                '<soap11env:Envelope xmlns:soap11env="http://schemas.xmlsoap.org/soap/envelope/" xmlns:tns="%s">'
+                '<soap11env:Body><tns:echo><tns:s>v%d&x;</tns:s><tns:n>1</tns:n></tns:echo></soap11env:Body>'
+                '</soap11env:Envelope>' % (TNS, r[1])).encode('utf8')
     if kind == 'invalid':      # schema-invalid: unknown element bad<i> inside a known method
         return soap('<tns:echo><tns:bad%d>x</tns:bad%d></tns:echo>' % (r[1], r[1]))
     if kind == 'badint':       # schema-invalid: not an integer
@@ -821,6 +834,22 @@ def unit_body(w, sched, r):
             xml = '<tns:echo xmlns:tns="%s"><tns:bad%d>x</tns:bad%d></tns:echo>' % (TNS, i, i)
         def f():
             payload = etree.fromstring(xml)
+            try:
+                w.in_prot.validate_document(payload)
+                return ['valid']
+            except Fault as e:
+                fs = e.faultstring
+                if isinstance(fs, bytes):
+                    fs = fs.decode('ascii', 'replace')
+                return ['fault', errid(str(fs))]
+        return f
+    if kind == 'validatex':     # an entity reference left in the tree: validate() raises XMLSchemaValidateError
+        from lxml import etree
+        from spyne.error import Fault
+        xml = ('<!DOCTYPE e [<!ENTITY x "y">]><tns:echo xmlns:tns="%s"><tns:s>v%d&x;</tns:s><tns:n>1</tns:n></tns:echo>'
+               % (TNS, r[1]))
+        def f():
+            payload = etree.fromstring(xml, parser=etree.XMLParser(resolve_entities=False))
             try:
                 w.in_prot.validate_document(payload)
                 return ['valid']
@@ -1044,7 +1073,7 @@ def judge(check, run):
                 if got[:4] == exp[:4]:
                     what = '?wsdl requester %d got the response headers %r; alone it gets %r' % (i, got[4], exp[4])
                     key = 'C12|wsdl|headers-differ'
-            elif r[0] == 'validate':
+            elif r[0] in ('validate', 'validatex'):
                 what = ('schema validation fault of thread %d carries %s instead of its own error text (%r)'
                         % (i, "the text 'None'" if got == ['fault', -1] else 'another request\'s error text (%r)' % (got,), exp))
                 key = 'C12|validate|fault-text-%s' % ('none' if got == ['fault', -1] else 'foreign' if got[0] == 'fault' else 'verdict')
@@ -1081,6 +1110,8 @@ def coq_req(r):
         return 'RWsdl'
     if k == 'validate':
         return '(RValidate %s %s)' % (gbool(r[1]), gz(r[2]))
+    if k == 'validatex':
+        return '(RValidateX %s)' % gz(XERR)
     if k == 'attrs':
         return '(RAttrs %s)' % glist([gz(x) for x in r[1]])
     if k == 'memo':
@@ -1096,7 +1127,7 @@ def coq_resp(r, res):
     k = r[0]
     if k == 'wsdl':
         return '(Some (PWsdl %s))' % ('(Some %s)' % gz(v[2]) if v[1].startswith('200') else 'None')
-    if k == 'validate':
+    if k in ('validate', 'validatex'):
         if v[0] == 'valid':
             return '(Some PValid)'
         return '(Some (PFault %s))' % ('None' if v[1] == -1 else '(Some %s)' % gz(v[1]))
@@ -1121,7 +1152,7 @@ IMPORTS = 'From SpyneV Require Import Base.Prelude C12.Model C12.Corr.'
 
 
 # ------------------------------------------------------------------ scenarios
-N_FIXED_UNIT = 13
+N_FIXED_UNIT = 15
 
 def unit_scenarios(check, tier):
     rng = check.rng
@@ -1139,6 +1170,8 @@ def unit_scenarios(check, tier):
         [['wsdl'], ['validate', False, 4], ['attrs', [1, 5]], ['memo', [2, 2]]],
         [['sort', [2, 2]], ['sort', [2]]],
         [['sort', [3, 4]], ['sort', [4, 3]], ['attrs', [3]]],
+        [['validatex', 1], ['validate', False, 7]],
+        [['validatex', 1], ['validate', True, 0], ['validatex', 2]],
     ]
     n = 4 if tier == 'quick' else 40
     for _ in range(n):
@@ -1148,8 +1181,10 @@ def unit_scenarios(check, tier):
             c = rng.random()
             if c < 0.3:
                 s.append(['wsdl'])
-            elif c < 0.55:
+            elif c < 0.5:
                 s.append(['validate', rng.random() < 0.4, rng.randint(0, 9)])
+            elif c < 0.55:
+                s.append(['validatex', rng.randint(0, 9)])
             elif c < 0.75:
                 s.append(['attrs', [rng.randrange(N_KEYS) for _ in range(rng.randint(1, 3))]])
             elif c < 0.88:
@@ -1191,8 +1226,10 @@ def http_request(rng):
         return ['tag', rng.choice(['p', 'qq', 'r-s'])]
     if c < 0.75:
         return ['count', rng.choice(['ann', 'bob']), [rng.randint(1, 9) for _ in range(rng.randint(0, 3))]]
-    if c < 0.87:
+    if c < 0.84:
         return ['invalid', rng.randint(0, 9)]
+    if c < 0.87:
+        return ['entity', rng.randint(0, 9)]
     if c < 0.93:
         return ['badint', rng.randint(0, 9)]
     if c < 0.97:
@@ -1210,6 +1247,7 @@ def http_scenarios(check, tier):
         [['tag', 'p'], ['tag', 'p'], ['echo', 'a', 1]],
         [['boom', 'A'], ['add', 1, 2], ['wsdl']],
         [['badint', 3], ['invalid', 4], ['echo', 'c', 3], ['wsdl']],
+        [['entity', 1], ['invalid', 2], ['echo', 'a', 1]],
         [['jbox', 'ann', 2], ['jbox', 'bob', 1]],
         [['jsum', 'ann', [1, 2]], ['jsq', -3], ['jbadtype', 4]],
     ]
